@@ -19,6 +19,8 @@ type C15Op struct {
 	Op    string // seed-old | crash | fail | ok
 	Point int    // index into the destination syscalls of a dry run (crash / fail)
 	Errno int    // index into the errno list of the syscall
+	Name  string `json:",omitempty"` // when set: inject at the When-th invocation of this syscall (sweep)
+	When  int    `json:",omitempty"`
 }
 
 type C15Case struct {
@@ -67,6 +69,7 @@ type c15Env struct {
 	order   []string          // installation order of the files (from a dry run)
 	points  []fsx.Syscall     // destination syscalls of a dry run, with per-name ordinals
 	ordinal []int
+	allCount map[string]int // syscall name -> number of invocations in the dry run (all threads, all paths)
 }
 
 func (e *c15Env) env() []string {
@@ -84,7 +87,9 @@ func (e *c15Env) dryRun() error {
 		return fmt.Errorf("dry run failed: exit=%d err=%v stderr=%s", tr.Exit, tr.Err, tr.Stderr)
 	}
 	count := map[string]int{}
+	e.allCount = map[string]int{}
 	for _, s := range tr.Calls {
+		e.allCount[s.Name]++
 		count[s.PID+"/"+s.Name]++
 		if s.Touches(e.base) {
 			e.points = append(e.points, s)
@@ -223,7 +228,12 @@ func (e *c15Env) runOp(op C15Op, idx int, trace *[]string, v *Verdict) bool {
 	// crash / fail at a destination syscall of the dry run
 	pi := op.Point % len(e.points)
 	pt := e.points[pi]
-	inj := &fsx.Inject{Syscall: pt.Name, When: e.ordinal[pi], Signal: op.Op == "crash"}
+	when := e.ordinal[pi]
+	if op.Name != "" {
+		pt = fsx.Syscall{Name: op.Name}
+		when = op.When
+	}
+	inj := &fsx.Inject{Syscall: pt.Name, When: when, Signal: op.Op == "crash"}
 	if op.Op == "fail" {
 		errs := c15Errnos[pt.Name]
 		if len(errs) == 0 {
@@ -246,7 +256,7 @@ func (e *c15Env) runOp(op C15Op, idx int, trace *[]string, v *Verdict) bool {
 			renamesBefore++
 		}
 	}
-	desc := fmt.Sprintf("%s(%s#%d", op.Op, pt.Name, e.ordinal[pi])
+	desc := fmt.Sprintf("%s(%s#%d", op.Op, pt.Name, when)
 	if op.Op == "fail" {
 		desc += "," + inj.Errno
 	}
@@ -262,10 +272,24 @@ func (e *c15Env) runOp(op C15Op, idx int, trace *[]string, v *Verdict) bool {
 	}
 	hs := tr.Calls[hit]
 	outside := !hs.Touches(e.base)
+	if !outside {
+		k := 0
+		for i := 0; i < hit; i++ {
+			if tr.Calls[i].Name == hs.Name && tr.Calls[i].Touches(e.base) {
+				k++
+			}
+		}
+		e.c.Rep.Feature(fmt.Sprintf("dest-hit:%s:%s#%d", op.Op, hs.Name, k+1))
+	}
 	if outside {
 		e.c.Rep.Discard("injection-outside-destination")
+		if os.Getenv("VERIF_C15_DEBUG") != "" {
+			fmt.Fprintf(os.Stderr, "DEBUG outside hit: %s(%s) = %s\n", hs.Name, hs.Args, hs.Ret)
+		}
 	}
-	v.Features["point:"+op.Op+":"+pt.Name] = true
+	if !outside {
+		v.Features["point:"+op.Op+":"+hs.Name] = true
+	}
 	if !outside && hs.Name == pt.Name {
 		e.c.Rep.Feature("inject:hit-intended-destination-call")
 	} else {
@@ -379,27 +403,40 @@ func TestWitnessC15(t *testing.T) {
 		for _, p := range probe.points {
 			names = append(names, p.Name)
 		}
+		probeCounts := probe.allCount
 		os.RemoveAll(probe.root)
 		c.Rep.Extra["destination_syscalls_per_install"] = float64(n)
 		c.Rep.Extra["destination_syscall_sequence"] = strings.Join(names, " ")
 		runs := 0
+		counts := probeCounts
+		var snames []string
+		for n := range counts {
+			if len(c15Errnos[n]) > 0 {
+				snames = append(snames, n)
+			}
+		}
+		sort.Strings(snames)
 		for _, seeded := range []bool{false, true} {
-			for pi := 0; pi < n; pi++ {
-				var variants []C15Op
-				variants = append(variants, C15Op{Op: "crash", Point: pi})
-				for ei := range c15Errnos[names[pi]] {
-					variants = append(variants, C15Op{Op: "fail", Point: pi, Errno: ei})
-				}
-				for _, op := range variants {
-					cs := C15Case{Agent: "claude-code", Form: "default"}
-					if seeded {
-						cs.Ops = append(cs.Ops, C15Op{Op: "seed-old"})
+			for _, sn := range snames {
+				// strace counts invocations per thread: sweep every ordinal up to the total number of
+				// invocations of the syscall, judge each run by what was actually hit
+				for when := 1; when <= counts[sn]; when++ {
+					var variants []C15Op
+					variants = append(variants, C15Op{Op: "crash", Name: sn, When: when})
+					for ei := range c15Errnos[sn] {
+						variants = append(variants, C15Op{Op: "fail", Name: sn, When: when, Errno: ei})
 					}
-					cs.Ops = append(cs.Ops, op)
-					v := checkC15(c, cs)
-					runs++
-					if msg := c.record(cs, v); msg != "" {
-						return
+					for _, op := range variants {
+						cs := C15Case{Agent: "claude-code", Form: "default"}
+						if seeded {
+							cs.Ops = append(cs.Ops, C15Op{Op: "seed-old"})
+						}
+						cs.Ops = append(cs.Ops, op)
+						v := checkC15(c, cs)
+						runs++
+						if msg := c.record(cs, v); msg != "" {
+							return
+						}
 					}
 				}
 			}
@@ -407,12 +444,20 @@ func TestWitnessC15(t *testing.T) {
 		c.Rep.Extra["single_fault_enumeration_runs"] = float64(runs)
 		c.Rep.Extra["single_fault_enumeration_exhaustive"] = true
 		keys := []string{}
+		crashHit, failHit := 0, 0
 		for k := range c.Rep.Features {
-			if strings.HasPrefix(k, "point:") {
-				keys = append(keys, k)
+			if strings.HasPrefix(k, "dest-hit:") {
+				keys = append(keys, strings.TrimPrefix(k, "dest-hit:"))
+				if strings.HasPrefix(k, "dest-hit:crash:") {
+					crashHit++
+				} else {
+					failHit++
+				}
 			}
 		}
 		sort.Strings(keys)
-		c.Rep.Extra["points_hit"] = strings.Join(keys, " ")
+		c.Rep.Extra["destination_points_hit"] = strings.Join(keys, " ")
+		c.Rep.Extra["destination_points_hit_as_crash"] = float64(crashHit)
+		c.Rep.Extra["destination_points_hit_as_error"] = float64(failHit)
 	})
 }
